@@ -48,6 +48,33 @@ def _candidate_external_names(proj, mpath):
     return sorted(out)
 
 
+def option_logs(listed, base, mpath, excl, extexcl, ext):
+    """What Trace_Scan needs to know about the exclusion options of one scan: for glob patterns the patterns and the
+    subjects (path strings of every entry at or below mpath / dotted candidate external names) as character sequences
+    - TLC does the matching; for regular expressions the entries matched with re.match."""
+    subjects = []
+    for d in listed["dirs"]:
+        if d[:len(mpath)] == mpath:
+            subjects.append({"name": d, "chars": chars(pj.path_of(base, d))})
+    for f in listed["files"]:
+        if f["name"][:len(mpath)] == mpath:
+            subjects.append({"name": f["name"], "chars": chars(pj.path_of(base, f["name"], f["py"]))})
+    ex_log = {"kind": excl["kind"], "patterns": [chars(p) for p in excl["patterns"]] if excl["kind"] == "glob" else [],
+              "subjects": subjects if excl["kind"] == "glob" else [], "matched": []}
+    if excl["kind"] == "regex":
+        ex_log["matched"] = [s["name"] for s in subjects
+                             if any(re.match(p, "".join(s["chars"])) for p in excl["patterns"])]
+    ext_names = _candidate_external_names(listed, mpath) if ext else []
+    ext_subjects = [{"name": list(n), "chars": chars(".".join(n))} for n in ext_names]
+    xx_log = {"kind": extexcl["kind"],
+              "patterns": [chars(p) for p in extexcl["patterns"]] if extexcl["kind"] == "glob" else [],
+              "subjects": ext_subjects if extexcl["kind"] == "glob" else [], "matched": []}
+    if extexcl["kind"] == "regex":
+        xx_log["matched"] = [s["name"] for s in ext_subjects
+                             if any(re.match(p, "".join(s["chars"])) for p in extexcl["patterns"])]
+    return ex_log, xx_log
+
+
 def run_episode(spec, uid="E"):
     from pytestarch import get_evaluable_architecture, get_evaluable_architecture_for_module_objects
 
@@ -95,27 +122,7 @@ def run_episode(spec, uid="E"):
                     kw["regex_external_exclusions"] = tuple(extexcl["patterns"])
                 if it.get("limit"):
                     kw["level_limit"] = it["limit"]
-                # subjects of the exclusion patterns: the path strings the code sees for every entry at or below mpath
-                subjects = []
-                for d in listed["dirs"]:
-                    if d[:len(mpath)] == mpath:
-                        subjects.append({"name": d, "chars": chars(pj.path_of(base, d))})
-                for f in listed["files"]:
-                    if f["name"][:len(mpath)] == mpath:
-                        subjects.append({"name": f["name"], "chars": chars(pj.path_of(base, f["name"], f["py"]))})
-                ex_log = {"kind": excl["kind"], "patterns": [chars(p) for p in excl["patterns"]] if excl["kind"] == "glob" else [],
-                          "subjects": subjects if excl["kind"] == "glob" else [], "matched": []}
-                if excl["kind"] == "regex":
-                    ex_log["matched"] = [s["name"] for s in subjects
-                                         if any(re.match(p, "".join(s["chars"])) for p in excl["patterns"])]
-                ext_names = _candidate_external_names(listed, mpath) if it.get("ext") else []
-                ext_subjects = [{"name": list(n), "chars": chars(".".join(n))} for n in ext_names]
-                xx_log = {"kind": extexcl["kind"],
-                          "patterns": [chars(p) for p in extexcl["patterns"]] if extexcl["kind"] == "glob" else [],
-                          "subjects": ext_subjects if extexcl["kind"] == "glob" else [], "matched": []}
-                if extexcl["kind"] == "regex":
-                    xx_log["matched"] = [s["name"] for s in ext_subjects
-                                         if any(re.match(p, "".join(s["chars"])) for p in extexcl["patterns"])]
+                ex_log, xx_log = option_logs(listed, base, mpath, excl, extexcl, bool(it.get("ext")))
                 out, err, obs = "ok", "", {"modules": [], "imports": []}
                 real_iterdir = Path.iterdir
 
